@@ -87,6 +87,29 @@ func checkLabelWiring(c *Ctx) {
 		})
 	}
 	// header writers use the shared header builder
+	// the length guard may sit in the writers (before the call) or in the builder itself
+	// (which then reports an error that the writers must check)
+	builderGuards := false
+	if mkf := c.P.Funcs["makeLabelHeader"]; mkf != nil {
+		xmk := c.flow(mkf, map[string]string{})
+		nSucc := 0
+		builderGuards = true
+		for _, ex := range xmk.Exits {
+			if len(ex.Ret) != 2 || ex.Ret[1] != "nil" {
+				if len(ex.Ret) != 2 {
+					builderGuards = false // no error result: it cannot refuse anything
+				}
+				continue
+			}
+			nSucc++
+			if v, has := atomU(ex.Cube, "len(label)>=256"); !has || v != "F" {
+				builderGuards = false
+			}
+		}
+		if nSucc == 0 {
+			builderGuards = false
+		}
+	}
 	for _, name := range []string{"AddLabelHeaderToPacket", "AddLabelHeaderToStream"} {
 		fn := c.MustFunc(name)
 		xf := c.flow(fn, map[string]string{})
@@ -94,8 +117,29 @@ func checkLabelWiring(c *Ctx) {
 		for _, e := range xf.Effects {
 			if e.Class == "CALL:makeLabelHeader" && e.Detail["arg0"] == "label" {
 				okB = true
-				if v, has := atomU(e.Cube, "len(label)>=256"); !has || v != "F" {
+				if v, has := atomU(e.Cube, "len(label)>=256"); (!has || v != "F") && !builderGuards {
 					okB = false
+				}
+			}
+		}
+		if builderGuards {
+			// the builder's verdict is honoured: after the call, success is reported only if
+			// the builder reported none (or its pair of results is handed through)
+			for _, ex := range xf.Exits {
+				if ex.Seen["CALL:makeLabelHeader"] == 0 || len(ex.Ret) == 0 {
+					continue
+				}
+				last := ex.Ret[len(ex.Ret)-1]
+				if strings.Contains(last, "makeLabelHeader(") {
+					continue // handed through
+				}
+				if _, v, ok := atomPS(ex.Cube, "makeLabelHeader(", "#1==nil"); !ok || v != "T" {
+					if last == "nil" || !strings.Contains(last, "makeLabelHeader(") {
+						// an exit that does not return the builder's error and did not see it nil
+						if _, v2, ok2 := atomPS(ex.Cube, "makeLabelHeader(", "#1==nil"); !(ok2 && v2 == "F" && last != "nil") {
+							okB = false
+						}
+					}
 				}
 			}
 		}
@@ -206,7 +250,7 @@ func checkLabelWiring(c *Ctx) {
 	okMk := false
 	xm := c.flow(mk, map[string]string{})
 	for _, ex := range xm.Exits {
-		if len(ex.Ret) == 1 {
+		if len(ex.Ret) >= 1 {
 			okMk = true
 		}
 	}
